@@ -133,13 +133,13 @@ def diff_case(at, preset, with_sbc):
                 out.append(("custom_array", "get_dimensionality with the per-atom radii %s gives %r, the bonding graph with exactly these radii gives %r" % (arr.tolist(), got, want)))
     if with_sbc and max(num) < len(num) and len(set(num.tolist())) > 1:
         # a custom per-atom array is used unchanged by SBC: reordering atoms together with their radii is a relabelling
-        arr = np.array([0.35 if i % 2 == 0 else 1.25 for i in range(len(num))])
-        perm = list(range(len(num)))[::-1]
+        arr = np.array([0.35 + 0.45 * ((2 * i) % 3) for i in range(len(num))])
+        perm = list(range(1, len(num))) + [0]
         c1 = _clusters_key(SBC().get_clusters(at.copy(), radii=arr.copy()))
         c2 = _clusters_key(SBC().get_clusters(at[perm], radii=arr[perm].copy()))
         back = sorted((tuple(sorted(perm[i] for i in idx)), sp) for idx, sp in c2)
         if c1 != back:
-            out.append(("sbc_custom_array", "SBC.get_clusters with per-atom radii %s gives %s, the same structure listed in reverse order (radii reordered with the atoms) gives %s" % (arr.tolist(), c1, back)))
+            out.append(("sbc_custom_array", "SBC.get_clusters with per-atom radii %s gives %s, the same structure with the atom list rolled by one (radii reordered with the atoms) gives %s" % (arr.tolist(), c1, back)))
     if with_sbc:
         ca = _clusters_key(SBC().get_clusters(at.copy(), radii=preset))
         cb = _clusters_key(SBC().get_clusters(at.copy(), radii=ref.copy()))
